@@ -259,8 +259,8 @@ Cases27H == Number(
   { [id |-> 0, vers |-> v, key |-> "P", steps |-> h,
      exp |-> [i \in 1..Len(h) |-> [presented_ok |-> PresentedExpected(h[i]), verifying |-> ~h[i].skip]]] :
       v \in {12, 13}, h \in Hist27(2) \cup (IF Tier = "quick" THEN {} ELSE Hist27(3)) } )
-ASSUME Gen = "C27H" =>
+ASSUME Gen \in {"C27", "C27H"} =>
          /\ ndJsonSerialize("c27h_cases.ndjson", Cases27H)
-         /\ PrintT(<<"GENERATED", Len(Cases27H),
+         /\ PrintT(<<"GENERATED-H", Len(Cases27H),
                      Cardinality({i \in 1..Len(Cases27H) : Cases27H[i].steps[1].skip /\ ~Cases27H[i].steps[2].skip})>>)
 =============================================================================
